@@ -11,6 +11,7 @@ import (
 	"runtime"
 	"strconv"
 	"strings"
+	"syscall"
 	"time"
 
 	"github.com/deadsy/sdfx/obj"
@@ -308,6 +309,13 @@ func guardedLoad(entry, path string) loadOutcome {
 func (ep *episode) runLoad() *Result {
 	res := ep.res
 	res.Sim = "sequential"
+	// an allocation driven by a corrupt count field must fail fast instead of
+	// committing tens of GiB: cap the address space of this (non-race) child
+	var as syscall.Rlimit
+	if err := syscall.Getrlimit(syscall.RLIMIT_AS, &as); err == nil && !simcore.RaceEnabled {
+		as.Cur = 6 << 30
+		syscall.Setrlimit(syscall.RLIMIT_AS, &as)
+	}
 	for gi := range ep.sc.Groups {
 		for ji := range ep.sc.Groups[gi] {
 			j := &ep.sc.Groups[gi][ji]
